@@ -12,7 +12,7 @@ import (
 // C20 — Reveal only removes redundant wrappers (Engine B + lock model).
 
 type rnode struct {
-	T     string  `json:"t"` // leaf, nil, S, A (alias of stack), C
+	T     string  `json:"t"` // leaf, nil, tnilS / tnilC / tnilA (typed nil pointers), S, A (alias of stack), C
 	K     string  `json:"k,omitempty"`
 	Paren bool    `json:"paren,omitempty"`
 	Deco  int     `json:"deco,omitempty"` // 1: symbol set, 2: case-folded, 3: both + lead-once/no-padding (presentation only)
@@ -30,6 +30,8 @@ func (n rnode) String() string {
 		return "x"
 	case "nil":
 		return "nil"
+	case "tnilS", "tnilC", "tnilA":
+		return n.T
 	case "C":
 		if n.Ex != nil {
 			return "C" + p + "{" + n.Ex.String() + "}"
@@ -61,14 +63,37 @@ func wantMutex(mode, depth int) bool {
 	return false
 }
 
-func (n rnode) build(path string, depth, mmode int) any {
+// behaviour modes (options and earlier refused calls that must not matter to Reveal):
+// 0 none, 1 forward indices, 2 negative indices, 3 capacity reached + refused calls made earlier, 4 all of these
+func (n rnode) build(path string, depth, mmode int, beh ...int) any {
+	bm := 0
+	if len(beh) > 0 {
+		bm = beh[0]
+	}
 	switch n.T {
 	case "leaf":
 		return "L" + path
 	case "nil":
 		return nil
+	case "tnilS":
+		return (*stackage.Stack)(nil)
+	case "tnilC":
+		return (*stackage.Condition)(nil)
+	case "tnilA":
+		return (*StackAlias)(nil)
 	case "S", "A":
-		s := newStackKind(n.K)
+		var s stackage.Stack
+		if (bm == 3 || bm == 4) && len(n.Kids) > 0 {
+			s = newStackKind(n.K, len(n.Kids))
+		} else {
+			s = newStackKind(n.K)
+		}
+		if bm == 1 || bm == 4 {
+			s.SetForwardIndices(true)
+		}
+		if bm == 2 || bm == 4 {
+			s.SetNegativeIndices(true)
+		}
 		if n.Paren {
 			s.SetParen(true)
 		}
@@ -85,9 +110,25 @@ func (n rnode) build(path string, depth, mmode int) any {
 		}
 		var vals []any
 		for i, k := range n.Kids {
-			vals = append(vals, k.build(fmt.Sprintf("%s.%d", path, i), depth+1, mmode))
+			vals = append(vals, k.build(fmt.Sprintf("%s.%d", path, i), depth+1, mmode, bm))
 		}
 		fill(s, vals, fillMode(n.String()+path))
+		if (bm == 3 || bm == 4) && len(n.Kids) > 0 {
+			// one call that a full stack refuses (or that addresses nothing): the content stays as it
+			// is. One call only, so that Reveal is the first to meet whatever the call left behind.
+			switch fillMode(path+n.String()) % 5 {
+			case 0:
+				s.Insert("refused", 0)
+			case 1:
+				s.Push("refused")
+			case 2:
+				s.Replace("refused", len(vals)+3)
+			case 3:
+				s.Remove(len(vals) + 3)
+			case 4:
+				s.Swap(0, len(vals)+3)
+			}
+		}
 		if n.T == "A" {
 			return StackAlias(s)
 		}
@@ -95,9 +136,9 @@ func (n rnode) build(path string, depth, mmode int) any {
 	case "C":
 		var ex any = "E" + path
 		if n.Ex != nil {
-			ex = n.Ex.build(path+".e", depth+1, mmode)
+			ex = n.Ex.build(path+".e", depth+1, mmode, bm)
 		}
-		c := stackage.Cond("kw"+path, stackage.Ge, ex)
+		c := condHistory("kw"+path, stackage.Ge, ex, fillMode(path+n.String()))
 		if n.Paren {
 			c.SetParen(true)
 		}
@@ -139,6 +180,35 @@ func takeSnap(v any) snap {
 		return sn
 	}
 	return snap{T: "leaf", Val: fmt.Sprintf("%T:%v", v, v)}
+}
+
+// c20Expected is the structure the description denotes (what build must have produced).
+func c20Expected(n rnode, path string) snap {
+	switch n.T {
+	case "leaf":
+		return snap{T: "leaf", Val: "string:L" + path}
+	case "nil":
+		return snap{T: "nil"}
+	case "tnilS":
+		return snap{T: "leaf", Val: "*stackage.Stack:<nil>"}
+	case "tnilC":
+		return snap{T: "leaf", Val: "*stackage.Condition:<nil>"}
+	case "tnilA":
+		return snap{T: "leaf", Val: "*main.StackAlias:<nil>"}
+	case "S", "A":
+		sn := snap{T: "S", Kind: n.K, Paren: n.Paren}
+		for i, k := range n.Kids {
+			sn.Kids = append(sn.Kids, c20Expected(k, fmt.Sprintf("%s.%d", path, i)))
+		}
+		return sn
+	}
+	sn := snap{T: "C", Kw: "kw" + path, Op: ">=", Paren: n.Paren}
+	e := snap{T: "leaf", Val: "string:E" + path}
+	if n.Ex != nil {
+		e = c20Expected(*n.Ex, path+".e")
+	}
+	sn.Ex = &e
+	return sn
 }
 
 // trueKind reads the stack type from the raw record: Kind() reports the symbol or the folded word.
@@ -317,11 +387,36 @@ func collectMutexes(d *stackage.VerifState, out map[uintptr]bool) {
 type c20Case struct {
 	Tree  rnode `json:"tree"`
 	Mutex int   `json:"mutex_mode"`
+	Beh   int   `json:"behaviour_mode,omitempty"`
 }
 
 func c20Run(c *Ctx, cs c20Case, count bool) {
-	root := cs.Tree.build("r", 0, cs.Mutex).(stackage.Stack)
+	var root stackage.Stack
+	built := func() (ok bool) {
+		defer func() {
+			if r := recover(); r != nil {
+				if dp, is := r.(deadlockPanic); is {
+					heldMutexes.Delete(dp.mutex)
+				}
+				ok = false
+			}
+		}()
+		root = cs.Tree.build("r", 0, cs.Mutex, cs.Beh).(stackage.Stack)
+		return true
+	}()
+	if !built {
+		// the construction calls themselves failed: not Reveal's doing (C01/C03 speak about those)
+		c.Outcome("skipped:construction-panicked")
+		c.Skipped.Add(1)
+		return
+	}
 	before := takeSnap(root)
+	if want := c20Expected(cs.Tree, "r"); want.String() != before.String() {
+		// the harness's own premise: the tree handed to Reveal is the one described
+		c.Outcome("skipped:tree-not-built-as-described")
+		c.Skipped.Add(1)
+		return
+	}
 	mx := map[uintptr]bool{}
 	collectMutexes(stackage.VerifDump(root), mx)
 	defer func() {
@@ -352,11 +447,11 @@ func c20Run(c *Ctx, cs c20Case, count bool) {
 		return ""
 	}()
 	if dead {
-		c.Violation("deadlock", fmt.Sprintf("Reveal re-acquires a mutex it already holds on %s (mutex mode %d)", cs.Tree, cs.Mutex), cs, size)
+		c.Violation("deadlock", fmt.Sprintf("Reveal tries to acquire a mutex that is already held on %s (mutex mode %d, behaviour mode %d)", cs.Tree, cs.Mutex, cs.Beh), cs, size)
 		return
 	}
 	if p != "" {
-		c.Violation("panic", fmt.Sprintf("Reveal panicked on %s: %s", cs.Tree, p), cs, size)
+		c.Violation("panic", fmt.Sprintf("Reveal panicked on %s (behaviour mode %d): %s", cs.Tree, cs.Beh, p), cs, size)
 		return
 	}
 	if len(mx) > 0 {
@@ -398,7 +493,7 @@ func c20Run(c *Ctx, cs c20Case, count bool) {
 func c20Trees(c *Ctx) []rnode {
 	headers := []rnode{{T: "S", K: "AND"}, {T: "S", K: "OR", Paren: true}, {T: "S", K: "NOT"}, {T: "S", K: "NOT", Paren: true}, {T: "S", K: "LIST"}}
 	decorated := []rnode{{T: "S", K: "NOT", Deco: 1}, {T: "S", K: "NOT", Deco: 2}, {T: "S", K: "NOT", Deco: 3}, {T: "S", K: "AND", Deco: 3}, {T: "S", K: "OR", Deco: 1}}
-	atoms := []rnode{{T: "leaf"}, {T: "nil"}, {T: "S", K: "OR"}, {T: "C"}, {T: "C", Paren: true}}
+	atoms := []rnode{{T: "leaf"}, {T: "nil"}, {T: "S", K: "OR"}, {T: "C"}, {T: "C", Paren: true}, {T: "tnilS"}, {T: "tnilC"}}
 	lists := func(elems []rnode, maxW int) [][]rnode {
 		var out [][]rnode
 		var rec func(cur []rnode)
@@ -465,7 +560,7 @@ func c20Trees(c *Ctx) []rnode {
 	if !c.Quick() {
 		maxChain = 5
 	}
-	tails := [][]rnode{{{T: "leaf"}}, {{T: "leaf"}, {T: "leaf"}}, {{T: "C"}}, {{T: "C", Paren: true}}, {}, {{T: "C", Ex: &rnode{T: "S", K: "AND", Kids: []rnode{{T: "S", K: "OR", Kids: []rnode{{T: "leaf"}, {T: "leaf"}}}}}}}}
+	tails := [][]rnode{{{T: "leaf"}}, {{T: "leaf"}, {T: "leaf"}}, {{T: "C"}}, {{T: "C", Paren: true}}, {}, {{T: "tnilS"}}, {{T: "tnilC"}}, {{T: "tnilA"}}, {{T: "C", Ex: &rnode{T: "S", K: "AND", Kids: []rnode{{T: "S", K: "OR", Kids: []rnode{{T: "leaf"}, {T: "leaf"}}}}}}}}
 	var chains func(depth int, inner rnode)
 	chains = func(depth int, inner rnode) {
 		trees = append(trees, rnode{T: "S", K: "AND", Kids: []rnode{inner}}, rnode{T: "S", K: "OR", Kids: []rnode{{T: "leaf"}, inner, {T: "leaf"}}})
@@ -510,21 +605,28 @@ func init() {
 		if !c.Quick() {
 			modes = []int{0, 1, 2, 3, 4}
 		}
-		c.Rule = "every tree of the bounded family (kinds AND/OR/NOT/LIST, parenthetical flags, children: leaf, nil, empty Stack, Stack, Condition(leaf), Condition(Stack), parenthetical Conditions; all single-child chains up to length 4/5 with several tails; aliases in the thorough tier) x mutex placement (none, all, root only, all but root, alternating); oracle: identical depth-first leaf/Condition sequence, result reachable from the input by unwrapping redexes only (receiver never unwrapped), equal normal forms, no panic, no re-acquisition of a held mutex (lock hooks), no mutex left held; non-trivial = distinct cases in which Reveal changed the structure"
+		c.Rule = "every tree of the bounded family (kinds AND/OR/NOT/LIST, parenthetical flags, children: leaf, nil, empty Stack, Stack, Condition(leaf), Condition(Stack), parenthetical Conditions; all single-child chains up to length 4/5 with several tails; aliases in the thorough tier) typed nil pointers to Stack / Condition / alias as leaves; x mutex placement (none, all, root only, all but root, alternating) x behaviour mode (none, forward indices, negative indices, capacity reached with refused Insert/Push/Replace/Remove/Swap made beforehand, all); oracle: identical depth-first leaf/Condition sequence, result reachable from the input by unwrapping redexes only (receiver never unwrapped), equal normal forms, no panic, no re-acquisition of a held mutex (lock hooks), no mutex left held; non-trivial = distinct cases in which Reveal changed the structure"
 		c.Bound["trees"] = len(trees)
+		behs := []int{0, 1, 3}
+		if !c.Quick() {
+			behs = []int{0, 1, 2, 3, 4}
+		}
 		c.Bound["mutex_modes"] = len(modes)
+		c.Bound["behaviour_modes"] = len(behs)
 		c.Exhaustive = true
 		parallelFor(len(trees), func(i int) {
 			if c.TimeUp() {
 				return
 			}
 			for _, m := range modes {
-				c20Run(c, c20Case{trees[i], m}, true)
+				for _, b := range behs {
+					c20Run(c, c20Case{trees[i], m, b}, true)
+				}
 			}
 		})
-		c.Sample(c20Case{trees[len(trees)/2], 1})
-		c.Sample(c20Case{trees[len(trees)-1], 3})
-		c.Sample(c20Case{trees[7], 0})
+		c.Sample(c20Case{trees[len(trees)/2], 1, 0})
+		c.Sample(c20Case{trees[len(trees)-1], 3, 3})
+		c.Sample(c20Case{trees[7], 0, 1})
 		c.Assumptions = append(c.Assumptions, "an unwrap is also accepted at a Condition's expression position and for alias-typed stacks (the statement does not restrict where the redundant Stack sits)")
 	}, Replay: func(c *Ctx, raw json.RawMessage) {
 		installLockModel()
